@@ -351,8 +351,17 @@ func compileLambda(e b6.Expression, c *compilation) (*lambdaCall, error) {
 
 func compileLiteral(e b6.Expression, c *compilation) error {
 	l := e.AnyExpression.(b6.AnyLiteral)
-	c.Append(Instruction{Op: OpPushValue, Value: reflect.ValueOf(l.Literal()), Expression: e})
+	c.Append(Instruction{Op: OpPushValue, Value: ValueOf(l.Literal()), Expression: e})
 	return nil
+}
+
+// ValueOf is reflect.ValueOf, except that nil (the nil literal) becomes a
+// valid Value holding a nil interface{}: the VM can't handle the zero Value.
+func ValueOf(v interface{}) reflect.Value {
+	if v == nil {
+		return reflect.Zero(reflect.TypeOf((*interface{})(nil)).Elem())
+	}
+	return reflect.ValueOf(v)
 }
 
 const MaxArgs = 32
@@ -534,7 +543,7 @@ func (v *VM) CallWithArgs(context *Context, c Callable, args []interface{}) (int
 		if err != nil {
 			return nil, err
 		}
-		frames[i].Value = reflect.ValueOf(arg)
+		frames[i].Value = ValueOf(arg)
 		frames[i].Expression = b6.Expression{AnyExpression: literal.AnyLiteral}
 	}
 	return v.CallWithArgsAndExpressions(context, c, frames[0:len(args)])
